@@ -23,6 +23,7 @@ REPO = os.path.abspath(os.environ.get("VERIF_REPO", "/repo"))
 # Outputs (evidence, replays) always go to VERIF_OUT (default: this tree)
 OUT = os.path.abspath(os.environ.get("VERIF_OUT", VERIF))
 LEVEL = "model_checking"
+HISTORY = 3  # executions of the same worker kept as replay history for state-dependent violations
 
 
 # ------------------------------------------------------------------------------------------
@@ -187,6 +188,8 @@ def _worker(args):
         mod = __import__(f"checks.{modname}", fromlist=["subs"])
         subs = mod.subs(tier, seed)
         out = {}
+        prev = []  # the last executions of this worker, across sub-checks (for history-dependent violations)
+        first = []  # ... and its first two (a stale cache is usually filled by the first call)
         for sub in subs:
             if only and not sub.id.startswith(only):
                 continue
@@ -239,7 +242,17 @@ def _worker(args):
                             v["sub"] = v.get("sub") or sub.id
                             v["case"] = jsonable(case)
                             v["runner"] = sub.id
+                            seen_h, hist = set(), []
+                            for rid, c in first + prev:
+                                kk = rid + "|" + digest(c)
+                                if kk not in seen_h:
+                                    seen_h.add(kk)
+                                    hist.append({"runner": rid, "case": jsonable(c)})
+                            v["history"] = hist
                             st["viol"].append(v)
+                prev = (prev + [(sub.id, case)])[-HISTORY:]
+                if len(first) < 2:
+                    first.append((sub.id, case))
             st["t"] = time.time() - t0
             out[sub.id] = st
         return out
@@ -292,6 +305,7 @@ def write_replay(pid, modname, tier, seed, v):
         "tier": tier,
         "seed": seed,
         "input": v["case"],
+        "history": v.get("history") or [],
         "expected": v.get("exp"),
         "observed": v.get("obs"),
         "message": v["msg"],
@@ -306,9 +320,12 @@ def write_replay(pid, modname, tier, seed, v):
     return path
 
 
-def replay_once(path):
-    """Re-execute one stored case without the explorer.  Returns list of violation messages."""
+def replay_once(path, with_history=None):
+    """Re-execute one stored case without the explorer.  Returns list of violation messages.
+    with_history: None = as recorded in the file (key `history_needed`), True/False = force."""
     body = json.load(open(path))
+    if with_history is None:
+        with_history = bool(body.get("history_needed"))
     bind()
     set_freud_threads()
     mod = __import__(f"checks.{body['module']}", fromlist=["subs"])
@@ -319,6 +336,12 @@ def replay_once(path):
     os.chdir(scratch)
     try:
         try:
+            if with_history:
+                for h in body.get("history") or []:
+                    try:
+                        subs[h["runner"]].run(h["case"])
+                    except Exception:
+                        pass
             r = sub.run(body["input"])
             msgs = [v["msg"] for v in r.viol if v]
         except Exception as e:
@@ -410,6 +433,8 @@ def run_property(pid, tier, seed, workers, only=None, quiet=False):
     nreport = 0
     nknown = 0
     harness_error = None
+    unreproduced = []
+    nreproduced = 0
     known_printed = set()
     for key in sorted(by_sig):
         vs = by_sig[key]
@@ -428,21 +453,38 @@ def run_property(pid, tier, seed, workers, only=None, quiet=False):
         # the same case must fail the same way in two fresh processes
         import subprocess
 
-        obs = []
-        for _ in range(2):
-            pr = subprocess.run(
-                [sys.executable, "-B", os.path.join(VERIF, "mc", "cli.py"), "--replay", path, "--json"],
-                capture_output=True, text=True, cwd=VERIF,
-            )
-            obs.append(pr.stdout.strip().splitlines()[-1] if pr.stdout.strip() else f"rc={pr.returncode} {pr.stderr[-300:]}")
+        def _twice():
+            o = []
+            for _ in range(2):
+                pr = subprocess.run(
+                    [sys.executable, "-B", os.path.join(VERIF, "mc", "cli.py"), "--replay", path, "--json"],
+                    capture_output=True, text=True, cwd=VERIF,
+                )
+                o.append(pr.stdout.strip().splitlines()[-1] if pr.stdout.strip() else f"rc={pr.returncode} {pr.stderr[-300:]}")
+            return o
+
+        obs = _twice()
+        hist_note = ""
+        if obs[0] == obs[1] == "[]" and v.get("history"):
+            # not reproducible from a fresh state: replay again after the executions that preceded it in the
+            # same worker (state carried between calls is itself a violation of every property: the result of
+            # an analysis must depend on its inputs only)
+            body = json.load(open(path))
+            body["history_needed"] = True
+            with open(path, "w") as f:
+                json.dump(body, f, indent=1, sort_keys=True)
+            obs = _twice()
+            hist_note = " [history-dependent: reproduces only after the preceding executions recorded in the replay file]"
         if obs[0] != obs[1]:
             harness_error = f"NONDETERMINISM: replay of {path} differs between two fresh processes: {obs}"
         elif obs[0] == "[]":
-            harness_error = f"NONDETERMINISM: {path} fails inside the explorer but not when replayed alone"
+            unreproduced.append(f"UNREPRODUCED: {path} ({v['sub']}) fails inside the explorer but not when replayed alone or after its recorded history")
+            continue
+        nreproduced += 1
         nreport += 1
         lines.append(f"VIOLATION property={pid} replay={path}")
         if not quiet:
-            lines.append(f"  sub={v['sub']} sig={canon(v.get('sig'))} :: {v['msg'][:300]}")
+            lines.append(f"  sub={v['sub']} sig={canon(v.get('sig'))} :: {v['msg'][:300]}{hist_note}")
     wall = time.time() - t0
 
     cov = {
@@ -499,7 +541,9 @@ def run_property(pid, tier, seed, workers, only=None, quiet=False):
             )
     for w in vacuous:
         print(f"VACUOUS? {w}")
-    if harness_error:
-        print(harness_error)
+    for u in unreproduced:
+        print(u)
+    if harness_error or (unreproduced and not nreproduced):
+        print(harness_error or "NONDETERMINISM: no violation of this run could be reproduced in a fresh process")
         return 3
-    return 1 if nreport else 0
+    return 1 if nreproduced else 0
